@@ -153,7 +153,7 @@ def run(c):
     import checks.blocksync as bs
     bs.run_part(c)
     # layer 2
-    cfgs = ["4eq-byz", "4w-byz", "4eq-byz2"] + (["5w-byz", "7eq-byz2", "3eq-nobyz", "4eq-calm"] if th else ["7eq-byz2"])
+    cfgs = ["4eq-byz", "4w-byz", "4eq-byz2", "5eq-byz"] + (["5w-byz", "7eq-byz2", "3eq-nobyz", "4eq-calm"] if th else ["7eq-byz2"])
     net_runs(c, cfgs, 40 if th else 5, ("net:agreement", "net:panic"))
     # many heights with validator-set changes (power raised, a correct validator removed and re-added, the Byzantine
     # validator's power changed), with restarts of correct nodes, and the default configuration (WaitForTxs)
